@@ -56,7 +56,9 @@ theorem exactly_one_record_per_key (cfg : Cfg N K) (L : Learner W) (o : Opts) (i
 reused results objects) starting from an empty store, a record stored under the key of (item, part) has
 exactly the instance index, the true values and the predictions of fitting a fresh clone on the item's
 training instances and predicting the part's instances, and carries the item's names; a saved fitted strategy
-holds exactly that fit. -/
+holds exactly that fit.  (`KeyInj` holds for `HDDResults` with distinct names, `mkWork_keys_injective`; for
+`RAMResults` it excludes names whose joined keys collide, where the statement is false:
+`ram_collision_breaks_honesty_witness`.) -/
 theorem record_eq_honest_fold (cfg : Cfg N K) (L : Learner W) (items : List (Item N)) (hk : KeyInj cfg items)
     (history : List RunSpec) :
     ∀ r ∈ runHistory cfg L items (St.empty : St N K W) history, ∀ it ∈ items,
@@ -461,6 +463,21 @@ theorem ram_key_collision_witness :
   unfold ramKey
   have : "a" ++ "_" ++ "b_c" = "a_b" ++ "_" ++ "c" := by decide
   rw [this]
+
+/-- the RAM work list of the collision: strategies "a", "a_b" on datasets "b_c", "c", one fold -/
+def rItems : List (Item String) :=
+  mkWork [⟨"b_c", wData, [([0, 1], [2])]⟩, ⟨"c", wData, [([0, 1], [2])]⟩] [⟨"a", 0⟩, ⟨"a_b", 0⟩]
+
+/-- **... and that breaks `record_eq_honest_fold` / exactly-one-record for `RAMResults`** (negation at a concrete
+witness; this is why those theorems carry `KeyInj`): an uninterrupted in-memory run over 4 items ends without
+error with 3 records, and the record found under the key of (strategy "a", dataset "b_c") is the one saved for
+(strategy "a_b", dataset "c"). -/
+theorem ram_collision_breaks_honesty_witness :
+    let r := fitPredict ramCfg wL ⟨false, false, false, false⟩ none rItems (St.empty : St String String Unit)
+    r.err = none ∧ rItems.length = 4 ∧ (keys r.st.recs).length = 3 ∧
+    (get? (rk ramCfg (⟨"a", 0, "b_c", wData, 0, [0, 1], [2]⟩ : Item String) .test) r.st.recs).map
+      (fun x => (x.s, x.d)) = some ("a_b", "c") := by
+  decide
 
 /-- **The real work list has injective keys on disk.**  For the work list `_iter` builds (datasets × strategies ×
 folds) and the `HDDResults` naming scheme, distinct strategy names (checked by `Orchestrator.__init__`) and
